@@ -310,10 +310,10 @@ def run(ctx):
 
     total = ctx.scale(4000, 100000)
     ctx.hyp(make_prop("dep"), gf.programs(PROFILE),
-            max_examples=max(5, total * 4 // 5),
+            max_examples=max(5, total // 2),
             key=lambda p: p.module_source)
     ctx.hyp(make_prop("names"), gf.programs(PROFILE_NAMES),
-            max_examples=max(5, total // 5), salt=50,
+            max_examples=max(5, total // 2), salt=50,
             key=lambda p: p.module_source)
 
 
